@@ -256,6 +256,14 @@ def report(res, ev, broken, aspects, known_match=None):
     aspects: list of keys of `ev` that are violations of THIS property when non-empty (concrete replays);
     'struct' and 'sem' are model-vs-implementation disagreements (ties), never violations by themselves."""
     known = [k for k in C.load_known().get("findings", []) if k.get("property") == res.pid]
+    if known_match is None:
+        def known_match(k, a, item):
+            r = item if isinstance(item, dict) else item[0]
+            return k.get("match", {}).get("decl_sexp") == r["decl_sexp"]
+    # declarations of known findings deviate by definition: they are not evidence against the model either
+    known_decls = set(k.get("match", {}).get("decl_sexp") for k in C.load_known().get("findings", []))
+    for key in ("struct", "sem", "ctx_model"):
+        ev[key] = [x for x in ev.get(key, []) if x[0]["decl_sexp"] not in known_decls]
     concrete = []
     for a in aspects:
         for item in ev.get(a, []):
@@ -263,7 +271,7 @@ def report(res, ev, broken, aspects, known_match=None):
     unlisted = []
     for a, item in concrete:
         r = item if isinstance(item, dict) else item[0]
-        kk = [k for k in known if known_match and known_match(k, a, item)]
+        kk = [k for k in known if known_match(k, a, item)]
         if kk:
             if kk[0]["what"] not in res.known:
                 res.known.append(kk[0]["what"])
